@@ -18,3 +18,87 @@ package ljh
 //@ func (Writer3).Flush
 //@   trusted
 //@   modifies nothing
+
+// ---------------------------------------------------------------------------------------------
+// C05 / C07: records reach the (asynchronous) writer whole, with the documented binary layout.
+// w.writer.acc is the byte sequence accepted so far (see asyncbufio/verif_contracts.go).
+// ---------------------------------------------------------------------------------------------
+
+// LJH 2.2 record (doc/LJH.md, "Binary Information"): 8 bytes subframe count, 8 bytes timestamp
+// (microseconds), then the samples as little-endian uint16.
+//@ func (*Writer).WriteRecord
+//@   props C05 C07
+//@   requires w.writer != nil && allocated(w.writer) && WInv(w.writer)
+//@   ensures wronglen: len(data) != w.Samples ==> result != nil
+//@   ensures rejected: result != nil ==> w.writer.n == old(w.writer.n) && w.RecordsWritten == old(w.RecordsWritten)
+//@   ensures kept: forall i int :: {w.writer.acc[i]} i < old(w.writer.n) ==> w.writer.acc[i] == old(w.writer.acc[i])
+//@   ensures inv: WInv(w.writer) && (forall j int :: {w.writer.mark[j]} j <= old(w.writer.items) ==> w.writer.mark[j] == old(w.writer.mark[j]))
+//@   ensures item: (result == nil ==> w.writer.items == old(w.writer.items) + 1) && (result != nil ==> w.writer.items == old(w.writer.items))
+//@   ensures whole: result == nil ==> w.writer.n == old(w.writer.n) + 16 + 2 * len(data) && w.RecordsWritten == old(w.RecordsWritten) + 1 && len(data) == w.Samples
+//@   ensures count: result == nil ==> (forall i int :: {w.writer.acc[i]} old(w.writer.n) <= i && i < old(w.writer.n) + 8 ==> w.writer.acc[i] == lebyte(framecount * w.SubframeDivisions + w.SubframeOffset, i - old(w.writer.n)))
+//@   ensures stamp: result == nil ==> (forall i int :: {w.writer.acc[i]} old(w.writer.n) + 8 <= i && i < old(w.writer.n) + 16 ==> w.writer.acc[i] == lebyte(timestamp, i - old(w.writer.n) - 8))
+//@   ensures samples: result == nil ==> (forall i int :: {w.writer.acc[i]} old(w.writer.n) + 16 <= i && i < w.writer.n ==> w.writer.acc[i] == lebyte(old(at(data, data.off + (i - w.writer.n - 16) / 2)), (i - old(w.writer.n) - 16) % 2))
+//@   ensures roomy: !QueueFull() && len(data) == w.Samples ==> result == nil
+//@   modifies w.RecordsWritten, w.writer.n, w.writer.acc, w.writer.items, w.writer.mark
+
+// LJH 3 record: int32 sample count, int32 first rising sample, int64 frame count, int64 timestamp, samples.
+//@ func (*Writer3).WriteRecord
+//@   props C05 C07
+//@   requires w.writer != nil && allocated(w.writer) && WInv(w.writer) && len(data) < 1073741824
+//@   ensures rejected: result != nil ==> w.writer.n == old(w.writer.n) && w.RecordsWritten == old(w.RecordsWritten)
+//@   ensures kept: forall i int :: {w.writer.acc[i]} i < old(w.writer.n) ==> w.writer.acc[i] == old(w.writer.acc[i])
+//@   ensures inv: WInv(w.writer) && (forall j int :: {w.writer.mark[j]} j <= old(w.writer.items) ==> w.writer.mark[j] == old(w.writer.mark[j]))
+//@   ensures item: (result == nil ==> w.writer.items == old(w.writer.items) + 1) && (result != nil ==> w.writer.items == old(w.writer.items))
+//@   ensures whole: result == nil ==> w.writer.n == old(w.writer.n) + 24 + 2 * len(data) && w.RecordsWritten == old(w.RecordsWritten) + 1
+//@   ensures length: result == nil ==> (forall i int :: {w.writer.acc[i]} old(w.writer.n) <= i && i < old(w.writer.n) + 4 ==> w.writer.acc[i] == lebyte(len(data), i - old(w.writer.n)))
+//@   ensures rising: result == nil ==> (forall i int :: {w.writer.acc[i]} old(w.writer.n) + 4 <= i && i < old(w.writer.n) + 8 ==> w.writer.acc[i] == lebyte(firstRisingSample, i - old(w.writer.n) - 4))
+//@   ensures count: result == nil ==> (forall i int :: {w.writer.acc[i]} old(w.writer.n) + 8 <= i && i < old(w.writer.n) + 16 ==> w.writer.acc[i] == lebyte(framecount, i - old(w.writer.n) - 8))
+//@   ensures stamp: result == nil ==> (forall i int :: {w.writer.acc[i]} old(w.writer.n) + 16 <= i && i < old(w.writer.n) + 24 ==> w.writer.acc[i] == lebyte(timestamp, i - old(w.writer.n) - 16))
+//@   ensures samples: result == nil ==> (forall i int :: {w.writer.acc[i]} old(w.writer.n) + 24 <= i && i < w.writer.n ==> w.writer.acc[i] == lebyte(old(at(data, data.off + (i - w.writer.n - 24) / 2)), (i - old(w.writer.n) - 24) % 2))
+//@   ensures roomy: !QueueFull() ==> result == nil
+//@   modifies w.RecordsWritten, w.writer.n, w.writer.acc, w.writer.items, w.writer.mark
+
+// File creation: a new file and a fresh, empty asynchronous writer on it.
+// (os.Create and IOFaults() are declared with the root package's contracts.)
+// Marshalling the header structs succeeds (plain structs; assumes finite float fields) and yields a fresh buffer.
+//@ extern func encoding/json.MarshalIndent
+//@   ensures fresh(result0) && result1 == nil
+//@ extern func bufio.NewWriterSize
+//@   ensures result != nil && fresh(result)
+//@ extern func github.com/usnistgov/dastard/asyncbufio.NewWriter
+//@   ensures result != nil && fresh(result) && result.n == 0 && result.items == 0 && result.mark[0] == 0
+
+//@ func (*Writer).CreateFile
+//@   props C05
+//@   ensures once: old(w.file) != nil ==> result != nil && unchanged(w.file, w.writer)
+//@   ensures created: result == nil ==> w.file != nil && w.writer != nil && fresh(w.writer) && w.writer.n == 0 && w.writer.items == 0 && WInv(w.writer)
+//@   ensures works: !IOFaults() && old(w.file) == nil ==> result == nil
+//@   modifies w.file, w.writer
+//@ func (*Writer3).CreateFile
+//@   props C05
+//@   ensures once: old(w.file) != nil ==> result != nil && unchanged(w.file, w.writer)
+//@   ensures created: result == nil ==> w.file != nil && w.writer != nil && fresh(w.writer) && w.writer.n == 0 && w.writer.items == 0 && WInv(w.writer)
+//@   ensures works: !IOFaults() && old(w.file) == nil ==> result == nil
+//@   modifies w.file, w.writer
+
+// Headers are text / JSON (fmt, encoding/json are opaque): exactly one item (LJH 2.2) resp. two
+// items (LJH 3) are queued and the header flag is set.
+//@ func (*Writer).WriteHeader
+//@   props C05
+//@   requires w.writer != nil && allocated(w.writer) && WInv(w.writer)
+//@   ensures flag: w.HeaderWritten
+//@   ensures inv: WInv(w.writer) && (forall j int :: {w.writer.mark[j]} j <= old(w.writer.items) ==> w.writer.mark[j] == old(w.writer.mark[j]))
+//@   ensures kept: forall i int :: {w.writer.acc[i]} i < old(w.writer.n) ==> w.writer.acc[i] == old(w.writer.acc[i])
+//@   ensures one: result == nil ==> w.writer.items == old(w.writer.items) + 1
+//@   ensures roomy: !QueueFull() ==> result == nil
+//@   modifies w.HeaderWritten, w.writer.n, w.writer.acc, w.writer.items, w.writer.mark
+
+//@ func (*Writer3).WriteHeader
+//@   props C05
+//@   requires w.writer != nil && allocated(w.writer) && WInv(w.writer)
+//@   ensures inv: WInv(w.writer) && (forall j int :: {w.writer.mark[j]} j <= old(w.writer.items) ==> w.writer.mark[j] == old(w.writer.mark[j]))
+//@   ensures kept: forall i int :: {w.writer.acc[i]} i < old(w.writer.n) ==> w.writer.acc[i] == old(w.writer.acc[i])
+//@   ensures once: old(w.HeaderWritten) ==> result != nil && w.writer.items == old(w.writer.items)
+//@   ensures two: result == nil ==> w.HeaderWritten && w.writer.items == old(w.writer.items) + 2
+//@   ensures roomy: !QueueFull() && !old(w.HeaderWritten) ==> result == nil
+//@   modifies w.HeaderWritten, w.writer.n, w.writer.acc, w.writer.items, w.writer.mark
